@@ -166,7 +166,9 @@ static std::string describe_buf(const unsigned char* dst, size_t cap, size_t rn,
   std::ostringstream o;
   o << "rn=" << rn << " cap=" << cap;
   const BufRec* rec = nullptr;
-  if (have_payload_ptr) {
+  if (have_payload_ptr && payload_ptr == nullptr) {
+    o << " pmid=NULL";
+  } else if (have_payload_ptr) {
     auto it = g_bufs.find(payload_ptr);
     if (it != g_bufs.end() && it->second.group == g) {
       rec = &it->second;
